@@ -55,15 +55,19 @@ def header_ms(fmt, nums, start_ms, reading):
     return start_ms             # time of the first line present
 
 
-def clean_pass(rng, fmt, n, kind):
+def clean_pass(rng, fmt, n, kind, first_forced=None):
     """Returns dict(nums, rec (ms per line), header (ms), start). kind selects where midnight / new year falls."""
     gac = l1b.FMT[fmt]["res"] == "gac"
     fam = l1b.FMT[fmt]["family"]
     per_ms = 500.0 if gac else 1000.0 / 6
     maxn = (15000 if gac else (65535 if fam == "klm" else 32767)) - 1
     first = rng.choice([1, 1, 2, 7, 30, 500, 721, 722, 3000])
-    if not gac and rng.random() < 0.25:   # LAC numbers use the whole 16-bit range (KLM unsigned, POD signed)
+    if not gac and rng.random() < 0.25:   # LAC: first lines within the 6-minute header window of the LAC rate (up to 2161)
+        first = rng.choice([800, 1500, 2100, 2161])
+    elif not gac and rng.random() < 0.25:   # LAC numbers use the whole 16-bit range (KLM unsigned, POD signed)
         first = rng.choice([32000, 40000, 60000]) if fam == "klm" else rng.choice([20000, 32000])
+    if first_forced is not None:
+        first = first_forced
     ngaps = rng.choice([0, 0, 1, 2, 4])
     gap_spec = [(rng.randrange(1, n), rng.choice([1, 2, 3, 10, 25, 200])) for _ in range(ngaps)] if n > 2 else []
     nums = line_numbers(rng, n, first, gap_spec)
